@@ -27,7 +27,13 @@ E2 = ("BEGIN:VCALENDAR\r\nVERSION:2.0\r\nPRODID:-//xv//EN\r\n"
       "END:VCALENDAR\r\n").encode()
 E3 = B.ics("e3", "gamma", dtstart="20200301T100000Z")
 T1 = ("BEGIN:VCALENDAR\r\nVERSION:2.0\r\nPRODID:-//xv//EN\r\nBEGIN:VTODO\r\nUID:t1\r\nDTSTAMP:20200101T000000Z\r\nDUE:20200105T120000Z\r\nSUMMARY:alpha\r\nEND:VTODO\r\nEND:VCALENDAR\r\n").encode()
-BODIES = {"E1": E1, "E2": E2, "E3": E3, "T1": T1}
+# a VEVENT whose times carry a TZID (11:00-13:00 Europe/Paris = 10:00-12:00 UTC)
+ETZ = ("BEGIN:VCALENDAR\r\nVERSION:2.0\r\nPRODID:-//xv//EN\r\n" + B.TZ_BLOCK + "\r\nBEGIN:VEVENT\r\nUID:etz\r\nDTSTAMP:20200101T000000Z\r\n"
+       "DTSTART;TZID=Europe/Paris:20200310T110000\r\nDTEND;TZID=Europe/Paris:20200310T130000\r\nSUMMARY:paris\r\nEND:VEVENT\r\nEND:VCALENDAR\r\n").encode()
+# a VFREEBUSY with two FREEBUSY properties
+FB2 = ("BEGIN:VCALENDAR\r\nVERSION:2.0\r\nPRODID:-//xv//EN\r\nBEGIN:VFREEBUSY\r\nUID:fb2\r\nDTSTAMP:20200101T000000Z\r\n"
+       "FREEBUSY:20200310T100000Z/20200310T120000Z\r\nFREEBUSY;FBTYPE=BUSY:20200311T090000Z/PT1H\r\nEND:VFREEBUSY\r\nEND:VCALENDAR\r\n").encode()
+BODIES = {"E1": E1, "E2": E2, "E3": E3, "T1": T1, "ETZ": ETZ, "FB2": FB2}
 
 
 def cf(name, inner=""):
@@ -52,6 +58,9 @@ FILTERS = {
     "todo-not-completed": cf("VCALENDAR", cf("VTODO", pf("COMPLETED", "<C:is-not-defined/>"))),
     "summary+no-location": cf("VCALENDAR", cf("VEVENT", pf("SUMMARY") + pf("LOCATION", "<C:is-not-defined/>"))),
     "todo-range": cf("VCALENDAR", cf("VTODO", tr("20200101T000000Z", "20200201T000000Z"))),
+    # starts exactly when the TZID event ends (12:00 UTC): must not match it
+    "range-after-paris": cf("VCALENDAR", cf("VEVENT", tr("20200310T120000Z", "20200310T140000Z"))),
+    "freebusy-range": cf("VCALENDAR", cf("VFREEBUSY", tr("20200311T000000Z", "20200312T000000Z"))),
 }
 
 NEVER = 10 ** 6
@@ -141,7 +150,7 @@ class C10Sys:
     def enabled_ops(self):
         ops = []
         for b in self.cfg.bodies:
-            nm = "t.ics" if b.startswith("T") else ("c.ics" if b == "E3" else "a.ics")
+            nm = {"T1": "t.ics", "E3": "c.ics", "ETZ": "z.ics", "FB2": "f.ics"}.get(b, "a.ics")
             ops.append(("put", nm, b))
         for nm in sorted(self.model):
             ops.append(("delete", nm))
@@ -229,12 +238,14 @@ def run(tier, workers=None):
     if tier == "quick":
         cfgs = [C10Cfg(0, filters=["vevent", "summary=beta", "range-feb", "todo-not-completed", "summary+no-location"]),
                 C10Cfg(1, filters=["summary=alpha", "range-jan", "todo-range"], bodies=("E1", "E2", "T1")),
-                C10Cfg(0, seed_bad=True, filters=["vevent", "summary-defined"], bodies=("E1",))]
+                C10Cfg(0, seed_bad=True, filters=["vevent", "summary-defined"], bodies=("E1",)),
+                C10Cfg(0, filters=["range-after-paris", "freebusy-range", "range-jan"], bodies=("ETZ", "FB2", "E1"))]
         depth = {0: 3, 1: 3}
     else:
         cfgs = [C10Cfg(0), C10Cfg(1), C10Cfg(2, filters=["vevent", "summary=beta", "range-feb", "todo-not-completed"]),
                 C10Cfg(None, filters=["vevent", "summary=beta", "range-feb"]), C10Cfg(0, seed_bad=True, bodies=("E1", "T1")),
-                C10Cfg(1, front="aio", filters=["summary=alpha", "range-feb", "summary+no-location"])]
+                C10Cfg(1, front="aio", filters=["summary=alpha", "range-feb", "summary+no-location"]),
+                C10Cfg(1, filters=["range-after-paris", "freebusy-range", "range-jan", "vevent"], bodies=("ETZ", "FB2", "E1"))]
         depth = {}
     tot = {"states": 0, "transitions": 0, "replays": 0, "requests": 0}
     per_cfg = []
